@@ -87,7 +87,7 @@ where
 
     fn check_motion(&self, from: &S, to: &S) -> bool {
         #[cfg(feature = "verif")]
-        crate::verif::note_motion_check();
+        let _verif_scope = crate::verif::MotionCheckScope::enter();
         // We need access to the space and checker from our stored setup info.
         if let (Some(pd), Some(vc)) = (&self.problem_def, &self.validity_checker) {
             let space = &pd.space;
